@@ -242,6 +242,19 @@ func c20Threads() []c20Thread {
 		{"Y refused node writes (NaN values)", func(inst *sh.Inst, nc *nats.Conn, rec *c20Rec, tol bool) {
 			c20Refuse(nc, rec, tol, "Y", c20Refused()[4:])
 		}},
+		{"Z1 a second node placed below the root sentinel (the only write that changes the in-memory root id)", func(inst *sh.Inst, nc *nats.Conn, rec *c20Rec, tol bool) {
+			err := client.SendEdgePoints(nc, "root2", "root", data.Points{{Type: data.PointTypeTombstone, Value: 0, Time: c20ts(60), Origin: "z"}, {Type: data.PointTypeNodeType, Text: "device"}}, true)
+			if err != nil && !tol {
+				rec.fail("request-failed/edge-points", "Z1: "+err.Error())
+			}
+		}},
+		{"Z2 reader of the root (nodes.root.all, three times)", func(inst *sh.Inst, nc *nats.Conn, rec *c20Rec, tol bool) {
+			for i := 0; i < 3; i++ {
+				if _, err := client.GetNodes(nc, "root", "all", "", false); err != nil && !tol {
+					rec.fail("request-failed/read", fmt.Sprintf("Z2 root read %d: %v", i+1, err))
+				}
+			}
+		}},
 	}
 }
 
@@ -486,7 +499,7 @@ func TestC20(t *testing.T) {
 				Rule: "the triples {W1,W2,R}, {W1,W2,V}, {W1,R,V}, {W2,R,V}: all schedules with at most 3 preemptions; same oracles"},
 				c20Body(t, c20Triples(false)[:4], false, 3))
 		}
-		rule := "threads = concurrent clients of one real store: W1 node-point writer (write, read-own-write, write), W2 edge-point writer, R reader (monotonic reads), V admin.storeVerify, X and Y clients whose requests must be refused (X: new edge without node type, self edge, cycle through the root, root tombstone; Y: NaN values) next to W1, W2 / R and next to each other (each must get its own error text)%s; all triples; scheduling points = every message delivery, every SQL operation and every writeLock.Lock in store/sqlite.go, and every reply leaving the store; all schedules with at most %d preemptions; oracles: every request answered (no deadlock), acknowledged writes visible, reads never go back, final content = newest acknowledged writes, hashes consistent, storeMaint has nothing to repair"
+		rule := "threads = concurrent clients of one real store: W1 node-point writer (write, read-own-write, write), W2 edge-point writer, R reader (monotonic reads), V admin.storeVerify, X and Y clients whose requests must be refused (X: new edge without node type, self edge, cycle through the root, root tombstone; Y: NaN values) next to W1, W2 / R and next to each other (each must get its own error text), Z1 / Z2 a write that changes the instance root next to readers of the root (with W1)%s; all triples; scheduling points = every message delivery, every SQL operation and every Mutex.Lock / RWMutex.Lock (and contended or recursive RLock) in store/sqlite.go, and every reply leaving the store; all schedules with at most %d preemptions; oracles: every request answered (no deadlock), acknowledged writes visible, reads never go back, final content = newest acknowledged writes, hashes consistent, storeMaint has nothing to repair"
 		extra := ", M admin.storeMaint (with V and a writer / reader, and with both writers)"
 		if thorough() {
 			extra = ", M admin.storeMaint, more triples with M and X, and W1 W2 R V together"
@@ -757,7 +770,7 @@ func c20RacePart(r *mc.Report) {
 	r.Extra("race_pass", map[string]any{"iterations": res.Iterations, "threads_per_iteration": res.Threads, "wall_s": res.WallS, "kind": "sampling"})
 }
 
-// c20Triples: thread sets (indices into c20Threads: W1 W2 R V M X Y); the thorough list extends the quick one.
+// c20Triples: thread sets (indices into c20Threads: W1 W2 R V M X Y Z1 Z2); the thorough list extends the quick one.
 func c20Triples(thorough bool) [][]int {
 	if only := os.Getenv("VERIF_C20_ONLY"); only != "" { // diagnosis: one thread set, e.g. "0,1,4"
 		var t []int
@@ -765,9 +778,9 @@ func c20Triples(thorough bool) [][]int {
 			n, _ := strconv.Atoi(f)
 			t = append(t, n)
 		}
-		return [][]int{t}
+		return [][]int{t, t, t, t}
 	}
-	ts := [][]int{{0, 1, 2}, {0, 1, 3}, {0, 2, 3}, {1, 2, 3}, {0, 3, 4}, {2, 3, 4}, {0, 1, 5}, {0, 2, 5}, {0, 5, 6}, {0, 1, 4}}
+	ts := [][]int{{0, 1, 2}, {0, 1, 3}, {0, 2, 3}, {1, 2, 3}, {0, 3, 4}, {2, 3, 4}, {0, 1, 5}, {0, 2, 5}, {0, 5, 6}, {0, 1, 4}, {0, 7, 8}}
 	if thorough {
 		ts = append(ts, []int{0, 2, 4}, []int{1, 3, 4}, []int{1, 2, 5}, []int{0, 1, 2, 3})
 	}
